@@ -78,10 +78,7 @@ func VerifC33_segmentCrash() {
 	var ws []written
 	for i := 0; i < k; i++ {
 		b, n := verifC33Batch(i)
-		inTx := i == 0
-		if verifThorough() {
-			inTx = verifChoose(2) == 1
-		}
+		inTx := i%2 == 0
 		first := c.pushBatch(pd, n, b, inTx)
 		verifAssert(first == int64(i), "batches get contiguous offsets")
 		seg := m.files["pdir/seg"]
